@@ -511,7 +511,10 @@ def main(tier):
             "discharged": discharged,
             "checker_cmd": "cargo kani --lib --exact --harness harnesses::<h> " + " ".join(KANI_FLAGS) + "  (CBMC 6.11, cadical; unwinding assertions on)",
             "trusted_base": TRUSTED,
-            "functions_encoded": len(info["specified"]),
+            "functions_encoded": len({h["method"] for h in hs}),
+            "methods_decided_in_this_tier": sorted({h["method"] for h in hs}),
+            "methods_decided_by_the_thorough_tier_only": sorted({m for m in info["specified"]} - {h["method"] for h in hs}) if tier == "quick" else [],
+            "harness_kinds_in_this_tier": {k: sum(1 for h in hs if h["kind"] == k) for k in sorted({h["kind"] for h in hs})},
             "methods_in_source": info["methods_in_source"],
             "unspecified": info["unspecified"] + info["signature_changed"],
             "not_instruction_methods": info["not_instruction"],
